@@ -33,8 +33,8 @@ ASSUMPTIONS = [
     "the mixed system is [[W M_f, -div^T, 0], [div, 0, -c^T], [0, c, 0]] with diagonal flux block (class docstrings)",
 ]
 FLOORS = {
-    "quick": {"solves_same_system": 900, "satisfies_full_system": 900, "formulation_usable": 300, "end_to_end_same_distance": 100, "default_tolerance_relative_residual": 800},
-    "thorough": {"solves_same_system": 3000, "satisfies_full_system": 3000, "formulation_usable": 1000, "end_to_end_same_distance": 400, "default_tolerance_relative_residual": 2500},
+    "quick": {"tiny_weight_scale_systems": 250, "solves_same_system": 900, "satisfies_full_system": 900, "formulation_usable": 300, "end_to_end_same_distance": 100, "default_tolerance_relative_residual": 800},
+    "thorough": {"tiny_weight_scale_systems": 700, "solves_same_system": 3000, "satisfies_full_system": 3000, "formulation_usable": 1000, "end_to_end_same_distance": 400, "default_tolerance_relative_residual": 2500},
 }
 COMBOS = [("full", "direct"), ("flux_reduced", "direct"), ("pressure", "direct"), ("flux_reduced", "amg"), ("pressure", "amg"),
           ("flux_reduced", "cg"), ("pressure", "cg")]
@@ -115,21 +115,34 @@ def run_shard(spec, R):
                      [w1.div, None, -w1.pressure_constraint.T],
                      [None, w1.pressure_constraint, None]], format="csc")
 
-            def rhs_vec():
+            def rhs_vec(s=1.0):
                 f = rng.integers(-5, 6, size=nc).astype(float)
                 f -= np.round(f.sum() / nc)
                 f[0] -= f.sum()  # integer-valued, exactly zero sum
-                return np.concatenate([rng.standard_normal(nf), M.volume * f, [0.0]])
+                return np.concatenate([s * rng.standard_normal(nf), M.volume * f, [0.0]])
+
+            # overall magnitude of the face weighting: O(1), or tiny (1e-9, as with sub-millimetre voxels or
+            # near-vanishing mobilities); for the tiny scale the reference is computed from the equivalent
+            # well-scaled system (weights / s, flux right-hand side / s, pressure * s), which is exact algebra
+            wscale = 1e-9 if (backend == "direct" and (spec["shapes"].index(list(shape)) + ci) % 3 == 0) else 1.0
+            case["weight_scale"] = wscale
 
             tol = 1e-9 if backend == "direct" else 1e-6
-            wA = 10 ** rng.uniform(-1.5, 1.5, size=nf)
-            wB = 10 ** rng.uniform(-1.5, 1.5, size=nf)
+            wA = wscale * 10 ** rng.uniform(-1.5, 1.5, size=nf)
+            wB = wscale * 10 ** rng.uniform(-1.5, 1.5, size=nf)
             steps = [("fresh", wA, False), ("same_matrix_reuse", wA, True), ("new_matrix", wB, False), ("same_matrix_reuse", wB, True)]
             usable = True
             for si, (label, wts, reuse) in enumerate(steps):
-                rhs = rhs_vec()
+                rhs = rhs_vec(wscale)
                 A = dense_system(wts)
-                ref = np.linalg.solve(A, rhs)
+                if wscale == 1.0:
+                    ref = np.linalg.solve(A, rhs)
+                else:
+                    rhs0 = rhs.copy()
+                    rhs0[:nf] /= wscale
+                    ref = np.linalg.solve(dense_system(wts / wscale), rhs0)
+                    ref[nf:nf + nc] *= wscale
+                    R.count("tiny_weight_scale_systems")
                 mat = lib_matrix(wts)
                 # the library's own assembly agrees with the independent one
                 R.check(np.allclose(mat.toarray(), A, rtol=1e-13, atol=1e-13 * np.max(np.abs(A))), "system_assembly_agrees", case)
@@ -138,18 +151,26 @@ def run_shard(spec, R):
                     usable = False
                     break
                 sol = np.asarray(out[0], float)
+                if backend == "amg" and len(getattr(w1, "amg_residual_history", [])) > opt["linear_solver_options"]["maxiter"]:
+                    # stand-alone AMG stopped at the iteration cap (5000 V-cycles, strongly anisotropic grid) while still
+                    # converging: the solve did not reach its tolerance, so "up to solver tolerance" is not decidable
+                    R.skip("amg_iteration_cap_reached_before_tolerance")
+                    continue
                 good = sol.shape == ref.shape and bool(np.all(np.isfinite(sol)))
                 det = {}
+                # tiny weights: a reduced formulation forms flux = J^-1 (g + D^T p), whose rounding error is relative to
+                # |J^-1 g|, not to the (possibly cancelling) flux itself; the judged scale includes that intermediate
+                flux_scale = float(np.max(np.abs(rhs[:nf] / (wts * M.volume)))) if (wscale != 1.0 and nf) else 0.0
                 if good:
                     for name, slc in (("flux", slice(0, nf)), ("pressure", slice(nf, nf + nc)), ("multiplier", slice(nf + nc, None))):
-                        scale = max(float(np.max(np.abs(ref))), 1e-300)
+                        scale = max(float(np.max(np.abs(ref))), 1e-300, flux_scale)
                         err = float(np.max(np.abs(sol[slc] - ref[slc]))) if sol[slc].size else 0.0
                         det[name] = err / scale
                         if err > tol * scale:
                             good = False
                 R.check(good, "solves_same_system", lambda: {**case, "step": label, "relative_errors": det}, key=mkey, group=f"{formulation}/{backend}")
                 res = float(np.linalg.norm(A @ sol - rhs)) if sol.shape == ref.shape else float("inf")
-                R.check(res <= tol * max(float(np.linalg.norm(rhs)), 1e-300) * max(1.0, float(np.linalg.cond(A)) * 1e-3 if backend != "direct" else 1.0),
+                R.check(res <= tol * max(float(np.linalg.norm(rhs)), 1e-300, float(np.linalg.norm(Dm)) * flux_scale) * max(1.0, float(np.linalg.cond(A)) * 1e-3 if backend != "direct" else 1.0),
                         "satisfies_full_system", lambda: {**case, "step": label, "residual": res, "rhs_norm": float(np.linalg.norm(rhs))}, key=mkey, group=f"{formulation}/{backend}")
                 R.check(abs(sol[nf + pinned]) <= tol * max(float(np.max(np.abs(ref[nf:nf + nc]))), 1e-300), "pressure_pinned", {**case, "step": label, "p": float(sol[nf + pinned])}, key=mkey)
                 R.sig([list(shape), formulation, backend, label], nontrivial=nf > 0, cls=f"{dim}d/{formulation}/{backend}")
